@@ -14,19 +14,33 @@
 (* whether a derived string is a valid script / module is decided by V8    *)
 (* and acorn together, never by this grammar.  The token "<NL>" is a line  *)
 (* terminator; the harness joins the other tokens with single spaces.      *)
+(*                                                                         *)
+(* Three further sub-grammars derive STATEMENT STRUCTURE (14.7 iteration   *)
+(* statements and the [In] grammar parameter of 13.x, every statement kind *)
+(* that opens a scope): "forhead", "inop", "scopes".  Their productions    *)
+(* carry a weight; a derivation may use productions of summed weight       *)
+(* <= MaxCost, which makes TLC enumerate every clause position with every  *)
+(* heavy alternative, and every PAIR of positions with every pair of       *)
+(* alternatives, while the remaining positions hold a plain filler.        *)
 (***************************************************************************)
 EXTENDS Integers, Sequences, FiniteSets, TLC, Json
 
 CONSTANTS Grammar,   \* which sub-grammar
           MaxLen,    \* bound on the number of terminals
-          Full       \* BOOLEAN: thorough alphabets (class modifiers x names)
+          MaxCost,   \* bound on the summed weight of the productions of one derivation
+          Full       \* BOOLEAN: thorough alphabets (class modifiers x names, all leaves/operators/statement kinds)
 
 VARIABLES form,      \* the sentential form
-          used       \* names of the productions applied so far
-vars == <<form, used>>
+          used,      \* names of the productions applied so far
+          cost       \* summed weight of the productions applied so far
+vars == <<form, used, cost>>
 
-(* a production: name, rare?, right-hand side *)
-P(name, rare, rhs) == [name |-> name, rare |-> rare, rhs |-> rhs]
+(* a production: name, rare?, right-hand side, weight.  The weight bounds how many "heavy" constructs     *)
+(* (scope-bearing expressions, `in`-carrying leaves, operator applications, non-empty loop bodies) one     *)
+(* derivation may combine: with MaxCost = 2 weights every PAIR of slots of a statement is filled with     *)
+(* every pair of heavy alternatives while the other slots hold the plain filler.                          *)
+P(name, rare, rhs) == [name |-> name, rare |-> rare, rhs |-> rhs, w |-> 0]
+H(name, w, rhs) == [name |-> name, rare |-> TRUE, rhs |-> rhs, w |-> w]
 
 (* ------------------------------------------------------------------ ASI *)
 Asi(nt) ==
@@ -280,6 +294,277 @@ ClassEl(nt) ==
     [] nt = "B" -> {P("b-id", FALSE, <<"Base">>), P("b-null", TRUE, <<"null">>), P("b-call", TRUE, <<"f", "(", ")">>), P("b-paren-seq", TRUE, <<"(", "a", ",", "b", ")">>),
                     P("b-class", TRUE, <<"class", "{", "}">>), P("b-arrow-unparen", TRUE, <<"(", ")", "=>", "1">>), P("b-obj", TRUE, <<"{", "}">>)}
 
+(* ===================================================================== *)
+(* Statement structure: the three sub-grammars below derive statements   *)
+(* with scope-bearing / `in`-carrying constructs in every clause         *)
+(* position.  They share the derivation machine; weights (H) bound how   *)
+(* many heavy alternatives one derivation combines.                      *)
+(* ===================================================================== *)
+Ctxs == {"p", "g", "a"}      \* plain code, generator body (yield operands), async body (await operands, for await)
+Lvls == {"1", "2", "3"}
+NextLvl(l) == IF l = "1" THEN "2" ELSE "3"
+
+(* ------------------------------------------------------------ forhead *)
+(* 14.7.4 / 14.7.5: for ( [lookahead != let [] Expression[~In]opt ; ...; ...) / for ( var VariableDeclarationList[~In] ; ...)  *)
+(* / for ( LexicalDeclaration[~In] ...) / for ( LHS in Expression[+In] ) / for ( LHS of AssignmentExpression[+In] ) / for await. *)
+(* Slots: i = init ([~In]), t = test, u = update, r = right-hand side of in/of, d = default initialiser inside a binding       *)
+(* or assignment pattern of the head.  Every slot has its own copy of the expression grammar (production names carry the       *)
+(* slot), so "every production inhabited" means every leaf in every clause position.                                           *)
+FhSlots == {"i", "t", "u", "r", "d"}
+FhE(s, l, c) == "E" \o s \o l \o c
+FhExpr(s, l, c) ==
+  LET n(x) == s \o "-" \o x
+      sub == FhE(s, NextLvl(l), c) IN
+  {P(n("id"), FALSE, <<"a">>),
+   H(n("in-paren"), 4, <<"(", "a", "in", "b", ")">>)}
+  \cup (IF c = "p" THEN
+         {H(n("arrow-in-paren"), 4, <<"k", "=>", "(", "k", "in", "o", ")">>),
+          H(n("in"), 4, <<"a", "in", "b">>),
+          H(n("arrow-block-in"), 4, <<"k", "=>", "{", "k", "in", "o", "}">>),
+          H(n("fn-in"), 4, <<"function", "(", ")", "{", "a", "in", "b", "}">>),
+          H(n("template-in"), 4, <<"`${", "a", "in", "b", "}`">>)}
+         \cup (IF Full /\ l # "3" THEN
+         {H(n("arrow-in"), 5, <<"k", "=>", "k", "in", "o">>),
+          H(n("obj-method-in"), 5, <<"{", "m", "(", ")", "{", "a", "in", "b", "}", "}">>),
+          H(n("async-arrow-in-paren"), 5, <<"async", "k", "=>", "(", "k", "in", "o", ")">>),
+          H(n("paren-arrow-in"), 5, <<"(", "k", "=>", "k", "in", "o", ")">>),
+          H(n("arrow-default-in"), 5, <<"(", "k", "=", "a", "in", "b", ")", "=>", "k">>),
+          H(n("class-key-in"), 5, <<"class", "{", "[", "a", "in", "b", "]", "(", ")", "{", "}", "}">>),
+          H(n("not-in-paren"), 5, <<"!", "(", "a", "in", "b", ")">>),
+          H(n("or-in-paren"), 5, <<"a", "||", "(", "a", "in", "b", ")">>),
+          H(n("fn-default-in"), 5, <<"function", "(", "p", "=", "a", "in", "b", ")", "{", "}">>)} ELSE {})
+       ELSE IF c = "g" THEN
+         {H(n("yield-in-paren"), 4, <<"yield", "(", "a", "in", "b", ")">>),
+          H(n("yield-in"), 4, <<"yield", "a", "in", "b">>)}
+         \cup (IF Full /\ l # "3" THEN
+         {H(n("arrow-in-paren"), 5, <<"k", "=>", "(", "k", "in", "o", ")">>),
+          H(n("yield-star-in-paren"), 5, <<"yield", "*", "(", "a", "in", "b", ")">>),
+          H(n("yield-arrow-in-paren"), 5, <<"yield", "k", "=>", "(", "k", "in", "o", ")">>)} ELSE {})
+       ELSE
+         {H(n("await-in-paren"), 4, <<"await", "(", "a", "in", "b", ")">>),
+          H(n("await-in"), 4, <<"await", "a", "in", "b">>)}
+         \cup (IF Full /\ l # "3" THEN
+         {H(n("arrow-in-paren"), 5, <<"k", "=>", "(", "k", "in", "o", ")">>),
+          H(n("async-arrow-await-in"), 5, <<"async", "k", "=>", "await", "(", "k", "in", "o", ")">>)} ELSE {}))
+  \* sequence / conditional nesting (to depth 2) where the restriction matters: the [~In] init slot
+  \cup (IF l = "3" \/ s # "i" THEN {} ELSE
+         {H(n("seq"), 2, <<sub, ",", sub>>),
+          H(n("cond"), 2, <<"c", "?", sub, ":", sub>>)}
+         \cup (IF Full /\ l = "1" THEN {H(n("paren-seq"), 2, <<"(", sub, ",", sub, ")">>)} ELSE {}))
+
+FhStmt(b, c) ==
+  LET E(s) == FhE(s, "1", c)
+      For == "For" \o c  Init == "Init" \o c  Lhs == "Lhs" \o c  Body == "Body" \o c IN
+  CASE b = "For" ->
+         {P("fh-cstyle", FALSE, <<"for", "(", Init, ";", E("t"), ";", E("u"), ")", Body>>),
+          P("fh-cstyle-initonly", TRUE, <<"for", "(", Init, ";", ";", ")", Body>>),
+          P("fh-cstyle-noinit", TRUE, <<"for", "(", ";", E("t"), ";", E("u"), ")", Body>>),
+          P("fh-in", TRUE, <<"for", "(", Lhs, "in", E("r"), ")", Body>>),
+          P("fh-of", TRUE, <<"for", "(", Lhs, "of", E("r"), ")", Body>>),
+          P("fh-labelled-continue", TRUE, <<"l", ":", "for", "(", "var", "x", "=", E("i"), ";", ";", E("u"), ")", "continue", "l", ";">>)}
+         \cup (IF c = "g" THEN {} ELSE {P("fh-await-of", TRUE, <<"for", "await", "(", Lhs, "of", E("r"), ")", Body>>)})
+    [] b = "Init" ->
+         {P("init-expr", FALSE, <<E("i")>>), P("init-var", FALSE, <<"var", "x", "=", E("i")>>),
+          P("init-let", TRUE, <<"let", "x", "=", E("i")>>)}
+         \cup (IF Full THEN
+         {P("init-const", TRUE, <<"const", "x", "=", E("i")>>),
+          P("init-var-2", TRUE, <<"var", "x", "=", "a", ",", "y", "=", E("i")>>),
+          P("init-let-array-default", TRUE, <<"let", "[", "x", "=", E("d"), "]", "=", E("i")>>),
+          P("init-var-obj-default", TRUE, <<"var", "{", "x", "=", E("d"), "}", "=", E("i")>>)} ELSE {})
+    [] b = "Lhs" ->
+         {P("lhs-id", FALSE, <<"x">>), P("lhs-var", FALSE, <<"var", "x">>), P("lhs-let", TRUE, <<"let", "x">>), P("lhs-const", TRUE, <<"const", "x">>),
+          P("lhs-var-init", TRUE, <<"var", "x", "=", E("i")>>),
+          P("lhs-array-default", TRUE, <<"[", "x", "=", E("d"), "]">>)}
+         \cup (IF Full THEN
+         {P("lhs-member", TRUE, <<"x", ".", "p">>), P("lhs-obj-default", TRUE, <<"{", "x", "=", E("d"), "}">>),
+          P("lhs-let-array-default", TRUE, <<"let", "[", "x", "=", E("d"), "]">>),
+          P("lhs-computed-member", TRUE, <<"x", "[", E("d"), "]">>)} ELSE {})
+    [] b = "Body" ->
+         {P("body-empty", FALSE, <<";">>),
+          H("body-block-let", 4, <<"{", "let", "y", "=", "a", "}">>),
+          H("body-nested-for-in", 4, <<"for", "(", "var", "z", "in", "o", ")", ";">>),
+          H("body-closure", 4, <<"f", "(", "(", ")", "=>", "a", ")", ";">>)}
+         \cup (IF Full THEN
+         {H("body-nested-for-init-in", 5, <<"for", "(", "var", "z", "=", "(", "a", "in", "b", ")", ";", ";", ")", "break", ";">>),
+          H("body-block-continue", 5, <<"{", "continue", "}">>)} ELSE {})
+
+FhBases == {"For", "Init", "Lhs", "Body"}
+ForHeadNT == {"Prog"} \cup {b \o c : b \in FhBases, c \in Ctxs} \cup {FhE(s, l, c) : s \in FhSlots, l \in Lvls, c \in Ctxs}
+ForHead(nt) ==
+  IF nt = "Prog" THEN
+    {P("fh-top", FALSE, <<"Forp">>),
+     P("fh-in-gen", TRUE, <<"function", "*", "g", "(", ")", "{", "Forg", "}">>),
+     P("fh-in-async", TRUE, <<"async", "function", "h", "(", ")", "{", "Fora", "}">>)}
+  ELSE IF \E b \in FhBases, c \in Ctxs : nt = b \o c THEN
+    LET t == CHOOSE t \in FhBases \X Ctxs : nt = t[1] \o t[2] IN FhStmt(t[1], t[2])
+  ELSE
+    LET t == CHOOSE t \in FhSlots \X Lvls \X Ctxs : nt = FhE(t[1], t[2], t[3]) IN FhExpr(t[1], t[2], t[3])
+
+(* --------------------------------------------------------------- inop *)
+(* The [In] parameter of ECMA-262 (Expression[In], AssignmentExpression[In], ConditionalExpression[In], ArrowFunction[In],      *)
+(* ConciseBody[In], YieldExpression[In], ShortCircuitExpression[In] ... RelationalExpression[In]): a for-init is [~In]; every  *)
+(* operator below either forwards the restriction to its operand (comma, assignment, the test and the else-branch of a        *)
+(* conditional, an expression-bodied arrow, yield, binary chains, unary operators, await) or resets it to [+In] (parentheses,   *)
+(* brackets, call arguments, template substitutions, the middle operand of a conditional, function/class/arrow-block bodies,    *)
+(* parameter initialisers, object-literal values, computed keys).  X<l><c> = an operand position at nesting level l.           *)
+IoX(l, c) == "X" \o l \o c
+IoOps(l, c) ==
+  LET h == IoX(NextLvl(l), c)
+      core == \* forwarding operators and the most common resets
+        {H("op-paren", 1, <<"(", h, ")">>), H("op-comma-r", 1, <<"a", ",", h>>), H("op-assign", 1, <<"x", "=", h>>),
+         H("op-cond-yes", 1, <<"c", "?", h, ":", "b">>), H("op-cond-no", 1, <<"c", "?", "a", ":", h>>),
+         H("op-arrow", 1, <<"k", "=>", h>>), H("op-or-r", 1, <<"a", "||", h>>), H("op-not", 1, <<"!", h>>),
+         H("op-call-arg", 1, <<"f", "(", h, ")">>)}
+      more ==
+        {H("op-comma-l", 1, <<h, ",", "a">>), H("op-assign-add", 1, <<"x", "+=", h>>), H("op-assign-and", 1, <<"x", "&&=", h>>),
+         H("op-assign-nullish", 1, <<"x", "??=", h>>), H("op-cond-test", 1, <<h, "?", "a", ":", "b">>),
+         H("op-async-arrow", 1, <<"async", "k", "=>", h>>), H("op-arrow-noparam", 1, <<"(", ")", "=>", h>>),
+         H("op-arrow-block", 1, <<"k", "=>", "{", h, "}">>), H("op-arrow-default-param", 1, <<"(", "k", "=", h, ")", "=>", "a">>),
+         H("op-and-r", 1, <<"a", "&&", h>>), H("op-nullish-r", 1, <<"a", "??", h>>), H("op-plus-r", 1, <<"a", "+", h>>),
+         H("op-or-l", 1, <<h, "||", "a">>), H("op-typeof", 1, <<"typeof", h>>),
+         H("op-array-spread", 1, <<"[", "...", h, "]">>), H("op-call-spread", 1, <<"f", "(", "...", h, ")">>),
+         H("op-template", 1, <<"`${", h, "}`">>), H("op-computed-member", 1, <<"a", "[", h, "]">>),
+         H("op-obj-value", 1, <<"{", "k", ":", h, "}">>), H("op-fn-default-param", 1, <<"function", "(", "p", "=", h, ")", "{", "}">>),
+         H("op-class-computed-key", 1, <<"class", "{", "[", h, "]", "(", ")", "{", "}", "}">>)}
+      full ==
+        {H("op-assign-or", 1, <<"x", "||=", h>>), H("op-assign-pow", 1, <<"x", "**=", h>>), H("op-lt-r", 1, <<"a", "<", h>>),
+         H("op-eq-r", 1, <<"a", "==", h>>), H("op-instanceof-r", 1, <<"a", "instanceof", h>>), H("op-pow-r", 1, <<"a", "**", h>>),
+         H("op-plus-l", 1, <<h, "+", "a">>), H("op-in-l", 1, <<h, "in", "a">>), H("op-in-r", 1, <<"a", "in", h>>),
+         H("op-neg", 1, <<"-", h>>), H("op-void", 1, <<"void", h>>), H("op-array-elem", 1, <<"[", h, "]">>),
+         H("op-new-arg", 1, <<"new", "f", "(", h, ")">>), H("op-tagged-template", 1, <<"t", "`${", h, "}`">>),
+         H("op-opt-computed", 1, <<"a", "?.", "[", h, "]">>), H("op-opt-call", 1, <<"a", "?.", "(", h, ")">>),
+         H("op-obj-computed-key", 1, <<"{", "[", h, "]", ":", "a", "}">>), H("op-obj-spread", 1, <<"{", "...", h, "}">>),
+         H("op-class-extends", 1, <<"class", "extends", "(", h, ")", "{", "}">>), H("op-class-field", 1, <<"class", "{", "f", "=", h, "}">>),
+         H("op-class-static-block", 1, <<"class", "{", "static", "{", h, "}", "}">>),
+         H("op-fn-body", 1, <<"function", "(", ")", "{", h, "}">>), H("op-fn-return", 1, <<"function", "(", ")", "{", "return", h, "}">>),
+         H("op-member-of-paren", 1, <<"(", h, ")", ".", "p">>), H("op-member", 1, <<h, ".", "p">>), H("op-import-call", 1, <<"import", "(", h, ")">>),
+         H("op-destructure-array-default", 1, <<"[", "x", "=", h, "]", "=", "a">>),
+         H("op-destructure-obj-default", 1, <<"{", "x", "=", h, "}", "=", "a">>)}
+      fwd == {H("op-comma-l", 1, <<h, ",", "a">>), H("op-assign-add", 1, <<"x", "+=", h>>), H("op-cond-test", 1, <<h, "?", "a", ":", "b">>),
+              H("op-async-arrow", 1, <<"async", "k", "=>", h>>), H("op-and-r", 1, <<"a", "&&", h>>), H("op-typeof", 1, <<"typeof", h>>)}
+      ctx == IF c = "g" THEN {H("op-yield", 1, <<"yield", h>>), H("op-yield-star", 1, <<"yield", "*", h>>)}
+             ELSE IF c = "a" THEN {H("op-await", 1, <<"await", h>>)} ELSE {} IN
+  IF l = "3" THEN {}
+  ELSE IF l = "1" THEN core \cup more \cup ctx \cup (IF Full THEN full ELSE {})
+  ELSE core \cup ctx \cup (IF Full THEN fwd ELSE {})
+(* an identifier that charset=ascii prints with an escape, directly before the keyword operator (operand level 1 only) *)
+IoAstral == {P("in-astral", TRUE, <<"(", "\\u{20BB7}", "in", "b", ")">>), P("in-astral-bare", TRUE, <<"\\u{20BB7}", "in", "b">>)}
+IoIn == {P("in-paren", FALSE, <<"(", "a", "in", "b", ")">>), P("in-bare", TRUE, <<"a", "in", "b">>)}
+        \cup (IF Full THEN {P("in-chain", TRUE, <<"a", "in", "b", "in", "c">>)} ELSE {})
+InOpNT == {"Prog"} \cup {IoX(l, c) : l \in Lvls, c \in Ctxs}
+InOp(nt) ==
+  IF nt = "Prog" THEN
+    {P("io-for-init", FALSE, <<"for", "(", "X1p", ";", ";", ")", ";">>),
+     P("io-for-var-init", FALSE, <<"for", "(", "var", "x", "=", "X1p", ";", ";", ")", ";">>),
+     P("io-gen-for-var-init", TRUE, <<"function", "*", "g", "(", ")", "{", "for", "(", "var", "x", "=", "X1g", ";", ";", ")", ";", "}">>),
+     P("io-async-for-var-init", TRUE, <<"async", "function", "h", "(", ")", "{", "for", "(", "var", "x", "=", "X1a", ";", ";", ")", ";", "}">>),
+     P("io-expr-stmt", TRUE, <<"x", "=", "X1p", ";">>)}
+    \cup (IF Full THEN
+    {P("io-for-let-init", TRUE, <<"for", "(", "let", "x", "=", "X1p", ";", ";", ")", ";">>),
+     P("io-for-test", TRUE, <<"for", "(", ";", "X1p", ";", ")", ";">>),
+     P("io-forin-annexb-init", TRUE, <<"for", "(", "var", "x", "=", "X1p", "in", "o", ")", ";">>),
+     P("io-forin-rhs", TRUE, <<"for", "(", "x", "in", "X1p", ")", ";">>),
+     P("io-forof-rhs", TRUE, <<"for", "(", "x", "of", "X1p", ")", ";">>),
+     P("io-gen-for-init", TRUE, <<"function", "*", "g", "(", ")", "{", "for", "(", "X1g", ";", ";", ")", ";", "}">>)} ELSE {})
+  ELSE LET t == CHOOSE t \in Lvls \X Ctxs : nt = IoX(t[1], t[2]) IN IoOps(t[1], t[2]) \cup IoIn \cup (IF t[1] = "1" /\ t[2] = "p" THEN IoAstral ELSE {})
+
+(* ------------------------------------------------------------- scopes *)
+(* Every statement kind that opens a scope or has clauses that the two passes of the compiler walk in a particular order, with *)
+(* a scope-bearing expression S (arrow, function, class, object method, accessor ...) or a scope-opening body B / statement    *)
+(* list L in every clause / operand position.  All S/B/L alternatives except the plain filler have weight 1: with MaxCost = 2   *)
+(* every pair of positions of every statement kind holds every pair of scope-bearing alternatives.                              *)
+ScS ==
+         {H("se-arrow", 2, <<"(", ")", "=>", "a">>), H("se-arrow-block", 2, <<"(", ")", "=>", "{", "}">>),
+          H("se-fn", 2, <<"function", "(", ")", "{", "}">>), H("se-class", 2, <<"class", "{", "}">>),
+          H("se-obj-method", 2, <<"(", "{", "m", "(", ")", "{", "}", "}", ")">>)}
+         \cup (IF Full THEN
+         {H("se-obj-getter", 3, <<"(", "{", "get", "g", "(", ")", "{", "}", "}", ")">>),
+          H("se-async-arrow", 3, <<"async", "(", ")", "=>", "a">>),
+          H("se-generator", 3, <<"function", "*", "(", ")", "{", "}">>),
+          H("se-named-class-method", 3, <<"class", "N", "{", "m", "(", ")", "{", "}", "}">>),
+          H("se-class-static-block", 3, <<"class", "{", "static", "{", "}", "}">>),
+          H("se-class-computed-field", 3, <<"class", "{", "[", "k", "]", "=", "a", "}">>),
+          H("se-arrow-default-closure", 3, <<"(", "p", "=", "(", ")", "=>", "a", ")", "=>", "a">>)} ELSE {})
+ScB ==
+         {H("b-block", 2, <<"{", "}">>), H("b-block-let", 2, <<"{", "let", "y", ";", "}">>),
+          H("b-closure-stmt", 2, <<"f", "(", "(", ")", "=>", "a", ")", ";">>),
+          H("b-nested-for", 2, <<"for", "(", ";", ";", ")", "break", ";">>)}
+         \cup (IF Full THEN
+         {H("b-nested-for-let", 3, <<"for", "(", "let", "z", ";", ";", ")", "break", ";">>),
+          H("b-try", 3, <<"try", "{", "}", "catch", "{", "}">>), H("b-switch", 3, <<"switch", "(", "a", ")", "{", "}">>),
+          H("b-labelled-block", 3, <<"m", ":", "{", "}">>),
+          H("b-class-expr-stmt", 3, <<"x", "=", "class", "{", "}", ";">>)} ELSE {})
+Scopes(nt) ==
+  CASE nt = "S" -> {P("se-none", FALSE, <<"a">>)} \cup ScS
+    [] nt = "SH" -> ScS
+    [] nt = "B" -> {P("b-empty", FALSE, <<";">>)} \cup ScB
+    [] nt = "BH" -> ScB
+    [] nt = "L" ->
+         {P("l-empty", FALSE, <<>>), P("l-body", FALSE, <<"BH">>), P("l-assign", FALSE, <<"x", "=", "SH", ";">>)}
+         \cup (IF Full THEN {P("l-let", TRUE, <<"let", "y", "=", "SH", ";">>), H("l-fn-decl", 3, <<"function", "d", "(", ")", "{", "}">>),
+                             H("l-class-decl", 3, <<"class", "D", "{", "}">>)} ELSE {})
+    [] nt = "Prog" ->
+         {P("sc-for", TRUE, <<"for", "(", "S", ";", "S", ";", "S", ")", "B">>),
+          P("sc-for-var", TRUE, <<"for", "(", "var", "v", "=", "S", ";", "S", ";", "S", ")", "B">>),
+          P("sc-for-let", TRUE, <<"for", "(", "let", "v", "=", "S", ";", "S", ";", "S", ")", "B">>),
+          P("sc-for-in", TRUE, <<"for", "(", "v", "in", "S", ")", "B">>),
+          P("sc-for-let-of", TRUE, <<"for", "(", "let", "v", "of", "S", ")", "B">>),
+          P("sc-for-const-default-of", TRUE, <<"for", "(", "const", "[", "v", "=", "S", "]", "of", "S", ")", "B">>),
+          P("sc-for-member-in", TRUE, <<"for", "(", "(", "S", ")", ".", "p", "in", "S", ")", "B">>),
+          P("sc-while", TRUE, <<"while", "(", "S", ")", "B">>),
+          P("sc-do-while", TRUE, <<"do", "B", "while", "(", "S", ")", ";">>),
+          P("sc-if-else", TRUE, <<"if", "(", "S", ")", "B", "else", "B">>),
+          P("sc-switch", TRUE, <<"switch", "(", "S", ")", "{", "case", "S", ":", "L", "default", ":", "L", "case", "S", ":", "L", "}">>),
+          P("sc-try-catch-finally", TRUE, <<"try", "{", "L", "}", "catch", "{", "L", "}", "finally", "{", "L", "}">>),
+          P("sc-try-catch-binding", TRUE, <<"try", "{", "L", "}", "catch", "(", "e", ")", "{", "L", "}">>),
+          P("sc-try-catch-destructured", TRUE, <<"try", "{", "L", "}", "catch", "(", "{", "e", "=", "S", "}", ")", "{", "L", "}">>),
+          P("sc-labelled-block", TRUE, <<"l", ":", "{", "L", "break", "l", ";", "L", "}">>),
+          P("sc-labelled-for-continue", TRUE, <<"l", ":", "for", "(", ";", "S", ";", "S", ")", "{", "L", "continue", "l", ";", "}">>),
+          P("sc-class-members", TRUE, <<"class", "C", "extends", "S", "{", "[", "S", "]", "=", "S", ";", "static", "{", "L", "}", "[", "S", "]", "(", ")", "{", "L", "}", "}">>),
+          P("sc-class-static-fields", TRUE, <<"class", "C", "{", "static", "[", "S", "]", "=", "S", ";", "static", "{", "L", "}", "static", "s", "=", "S", ";", "}">>),
+          P("sc-fn-defaults", TRUE, <<"function", "f", "(", "p", "=", "S", ",", "q", "=", "S", ")", "{", "L", "}">>),
+          P("sc-arrow-defaults", TRUE, <<"x", "=", "(", "p", "=", "S", ")", "=>", "S", ";">>),
+          P("sc-with", TRUE, <<"with", "(", "S", ")", "B">>),
+          P("sc-var-2", TRUE, <<"var", "v", "=", "S", ",", "w", "=", "S", ";">>),
+          P("sc-let-default", TRUE, <<"let", "[", "v", "=", "S", "]", "=", "S", ";">>),
+          P("sc-cond", TRUE, <<"x", "=", "S", "?", "S", ":", "S", ";">>),
+          P("sc-call", TRUE, <<"x", "=", "(", "S", ")", "(", "S", ",", "S", ")", ";">>),
+          P("sc-assign-member", TRUE, <<"a", "[", "S", "]", "=", "S", ";">>),
+          P("sc-template", TRUE, <<"x", "=", "`${", "S", "}${", "S", "}`", ";">>),
+          P("sc-obj-methods", TRUE, <<"x", "=", "{", "[", "S", "]", "(", "p", "=", "S", ")", "{", "L", "}", ",", "get", "[", "S", "]", "(", ")", "{", "L", "}", "}", ";">>),
+          P("sc-destructure-assign", TRUE, <<"[", "a", "[", "S", "]", "=", "S", "]", "=", "S", ";">>)}
+         \cup (IF Full THEN
+         {P("sc-for-var-in", TRUE, <<"for", "(", "var", "v", "in", "S", ")", "B">>),
+          P("sc-for-of", TRUE, <<"for", "(", "v", "of", "S", ")", "B">>),
+          P("sc-for-var-init-in", TRUE, <<"for", "(", "var", "v", "=", "S", "in", "S", ")", "B">>),
+          P("sc-for-await-of", TRUE, <<"async", "function", "h", "(", ")", "{", "for", "await", "(", "v", "of", "S", ")", "B", "}">>),
+          P("sc-try-finally", TRUE, <<"try", "{", "L", "}", "finally", "{", "L", "}">>),
+          P("sc-label-label", TRUE, <<"l", ":", "m", ":", "B">>),
+          P("sc-class-accessors", TRUE, <<"class", "C", "{", "get", "[", "S", "]", "(", ")", "{", "L", "}", "set", "[", "S", "]", "(", "v", "=", "S", ")", "{", "L", "}", "}">>),
+          P("sc-fn-destructured-defaults", TRUE, <<"function", "f", "(", "{", "p", "=", "S", "}", ",", "[", "q", "=", "S", "]", ")", "{", "L", "}">>),
+          P("sc-arrow-defaults-block", TRUE, <<"x", "=", "(", "p", "=", "S", ")", "=>", "{", "L", "}", ";">>),
+          P("sc-nested-fn", TRUE, <<"function", "f", "(", ")", "{", "L", "function", "g", "(", ")", "{", "L", "}", "L", "}">>),
+          P("sc-return-seq", TRUE, <<"function", "f", "(", ")", "{", "return", "S", ",", "S", ";", "}">>),
+          P("sc-let-obj-computed", TRUE, <<"let", "{", "[", "S", "]", ":", "v", "=", "S", "}", "=", "S", ";">>),
+          P("sc-seq", TRUE, <<"x", "=", "(", "S", ",", "S", ")", ";">>),
+          P("sc-new", TRUE, <<"new", "(", "S", ")", "(", "S", ")", ";">>),
+          P("sc-assign-compound-member", TRUE, <<"(", "S", ")", ".", "p", "??=", "S", ";">>),
+          P("sc-tagged", TRUE, <<"x", "=", "(", "S", ")", "`${", "S", "}`", ";">>),
+          P("sc-opt-chain", TRUE, <<"x", "=", "a", "?.", "[", "S", "]", "?.", "(", "S", ")", ";">>),
+          P("sc-or", TRUE, <<"x", "=", "S", "||", "S", ";">>), P("sc-nullish", TRUE, <<"x", "=", "S", "??", "S", ";">>),
+          P("sc-array-spread", TRUE, <<"x", "=", "[", "S", ",", "...", "S", "]", ";">>),
+          P("sc-obj-computed-spread", TRUE, <<"x", "=", "{", "[", "S", "]", ":", "S", ",", "...", "S", "}", ";">>),
+          P("sc-destructure-obj-assign", TRUE, <<"(", "{", "[", "S", "]", ":", "a", "[", "S", "]", "=", "S", "}", "=", "S", ")", ";">>),
+          P("sc-yield", TRUE, <<"function", "*", "g", "(", ")", "{", "x", "=", "yield", "S", ",", "yield", "*", "S", ";", "}">>),
+          P("sc-await", TRUE, <<"async", "function", "h", "(", ")", "{", "x", "=", "await", "S", ",", "await", "S", ";", "}">>),
+          P("sc-export-default", TRUE, <<"export", "default", "S", ";">>),
+          \* label sets and declaration scopes of nested scope-opening statements
+          P("sc-label-label-continue", TRUE, <<"l", ":", "m", ":", "for", "(", ";", "S", ";", ")", "{", "L", "continue", "l", ";", "}">>),
+          P("sc-static-block-same-label", TRUE, <<"l", ":", "{", "class", "C", "{", "static", "{", "l", ":", "{", "L", "break", "l", ";", "}", "}", "}", "}">>),
+          P("sc-static-block-var-fn", TRUE, <<"class", "C", "{", "static", "{", "var", "v", "=", "S", ";", "function", "v", "(", ")", "{", "L", "}", "}", "}">>),
+          P("sc-fn-var-fn", TRUE, <<"function", "f", "(", ")", "{", "var", "v", "=", "S", ";", "function", "v", "(", ")", "{", "L", "}", "}">>),
+          P("sc-paren-string-then-with", TRUE, <<"(", "'use strict'", ")", ";", "with", "(", "S", ")", "B">>)} ELSE {})
+
 NonTerminalsOf(g) ==
   CASE g = "asi" -> {"Prog", "Line", "NL", "E", "Cont", "Post", "Op", "InFn", "InGen", "InLoop", "Semi"}
     [] g = "regexdiv" -> {"Prog", "Before", "Slash", "Open", "Close", "Re"}
@@ -289,13 +574,25 @@ NonTerminalsOf(g) ==
     [] g = "numsep" -> {"Prog", "Num", "NumDot", "NumGlue"}
     [] g = "escapes" -> {"Prog", "I", "K"}
     [] g = "class" -> {"Prog", "El", "Mods", "Name", "Kind", "FKind", "El2", "Sep", "B"}
-NT == NonTerminalsOf(Grammar)
-Prods(nt) ==
+    [] g = "forhead" -> ForHeadNT
+    [] g = "inop" -> InOpNT
+    [] g = "scopes" -> {"Prog", "S", "SH", "B", "BH", "L"}
+ProdsRaw(nt) ==
   CASE Grammar = "asi" -> Asi(nt) [] Grammar = "regexdiv" -> ReDiv(nt) [] Grammar = "idents" -> Idents(nt) [] Grammar = "cover" -> Cover(nt)
     [] Grammar = "annexb" -> AnnexB(nt) [] Grammar = "numsep" -> NumSep(nt) [] Grammar = "escapes" -> Escapes(nt) [] Grammar = "class" -> ClassEl(nt)
+    [] Grammar = "forhead" -> ForHead(nt) [] Grammar = "inop" -> InOp(nt) [] Grammar = "scopes" -> Scopes(nt)
+
+(* the non-terminals reachable from Prog (with the alphabets selected by Full), and their productions, computed once *)
+RECURSIVE Reach(_)
+Reach(S) == LET T == S \cup {x \in NonTerminalsOf(Grammar) : \E nt \in S : \E p \in ProdsRaw(nt) : \E i \in 1..Len(p.rhs) : p.rhs[i] = x}
+            IN IF T = S THEN S ELSE Reach(T)
+NT == Reach({"Prog"})
+ProdTable == [nt \in NT |-> ProdsRaw(nt)]
+Prods(nt) == ProdTable[nt]
 
 AllProds == UNION {Prods(nt) : nt \in NT}
 RareNames == {p.name : p \in {q \in AllProds : q.rare}}
+HeavyNames == {p.name : p \in {q \in AllProds : q.w > 0}}
 
 (* index of the leftmost non-terminal, 0 if the form is terminal *)
 Leftmost(f) == IF \E i \in 1..Len(f) : f[i] \in NT
@@ -305,7 +602,7 @@ NTerminals(f) == Cardinality({i \in 1..Len(f) : f[i] \notin NT})
 
 ASSUME PrintT(<<"CASE", ToJson([grammar |-> Grammar, allprods |-> {p.name : p \in AllProds}, rareprods |-> RareNames])>>)
 
-Init == form = <<"Prog">> /\ used = {}
+Init == form = <<"Prog">> /\ used = {} /\ cost = 0
 
 Derive ==
   LET i == Leftmost(form) IN
@@ -313,24 +610,29 @@ Derive ==
   /\ \E p \in Prods(form[i]) :
        /\ form' = SubSeq(form, 1, i - 1) \o p.rhs \o SubSeq(form, i + 1, Len(form))
        /\ used' = used \cup {p.name}
+       /\ cost' = cost + p.w
+       /\ cost' <= MaxCost
        /\ NTerminals(form') <= MaxLen
 
 (* a terminal form is exported once (stuttering step with the side effect) *)
 Export ==
   /\ Leftmost(form) = 0
   /\ form # <<"done">>
-  /\ PrintT(<<"CASE", ToJson([grammar |-> Grammar, toks |-> form, prods |-> used, rare |-> used \cap RareNames])>>)
-  /\ form' = <<"done">> /\ used' = {}
+  /\ PrintT(<<"CASE", ToJson([grammar |-> Grammar, toks |-> form, prods |-> used, rare |-> used \cap RareNames,
+                              heavy |-> used \cap HeavyNames, cost |-> cost])>>)
+  /\ form' = <<"done">> /\ used' = {} /\ cost' = 0
 
 Next == Derive \/ Export
 Spec == Init /\ [][Next]_vars
 
 (* model-level checks *)
-TypeOK == /\ form \in Seq(STRING) /\ used \subseteq {p.name : p \in AllProds}
+TypeOK == /\ form \in Seq(STRING) /\ used \subseteq {p.name : p \in AllProds} /\ cost \in 0..MaxCost
 Bounded == NTerminals(form) <= MaxLen
+(* the weight bound is respected and a derivation that used no weighted production has weight 0 *)
+CostSound == (used \cap HeavyNames = {}) => cost = 0
 (* leftmost derivation: everything to the left of the leftmost non-terminal is terminal (by definition) and
-   the set of used productions never shrinks along a derivation *)
-UsedGrows == [][form' # <<"done">> => used \subseteq used']_vars
+   the set of used productions never shrinks along a derivation, nor does its weight *)
+UsedGrows == [][form' # <<"done">> => (used \subseteq used' /\ cost <= cost')]_vars
 (* every production of the sub-grammar is reachable: checked by the harness from the exported sets
    (per-production counts) and by TLC's action coverage *)
 =============================================================================
